@@ -32,8 +32,10 @@ PHASES = [
     ("idle-5000", ("idle", 5000, 5000, 0, None)),
     ("steady-ssrc-b", ("pkts", 20, 20, 1500, SSRC_B)),
 ]
+# not part of the big trees (it would multiply them): 300 packets, each from an SSRC never seen before
+FLOOD = ("ssrc-flood", ("flood", 20, 20, 1200, None))
 NAMES = [n for n, _ in PHASES]
-PH = dict(PHASES)
+PH = dict(PHASES + [FLOOD])
 REDUCED = ["steady-1200", "steady-0", "congest-1200", "congest-100", "congest-0", "drain-1200", "slow-0", "idle-1500"]
 
 
@@ -91,7 +93,9 @@ def feed(est, ref, name):
         ref.now += ga
         ref.send += gs
         return None
-    for i in range(N):
+    for i in range(N if kind == "pkts" else 300):
+        if kind == "flood":
+            ssrc = 500000 + ref.packets
         ref.now += ga
         ref.send += gs
         ref.packets += 1
@@ -125,8 +129,13 @@ def feed(est, ref, name):
             return ("estimate/remb-encode", "%s: %s for estimate %r" % (type(e).__name__, e, bitrate), i)
         if back > bitrate or (bitrate - back) * (1 << 17) > bitrate or back_ssrcs != list(ssrcs):
             return ("estimate/remb-roundtrip", "estimate %d encodes to %d" % (bitrate, back), i)
-        if sorted(ssrcs) != sorted(ref.ssrcs) or len(set(ssrcs)) != len(ssrcs):
-            return ("estimate/ssrcs", "estimate lists %r, seen %r" % (ssrcs, ref.ssrcs), i)
+        if len(ref.ssrcs) <= 255:
+            if sorted(ssrcs) != sorted(ref.ssrcs) or len(set(ssrcs)) != len(ssrcs):
+                return ("estimate/ssrcs", "estimate lists %r, seen %r" % (ssrcs, ref.ssrcs), i)
+        elif not set(ssrcs) <= set(ref.ssrcs) or len(set(ssrcs)) != len(ssrcs) or len(ssrcs) != 255 or ssrc not in ssrcs:
+            # REMB can name 255 sources at most: then a duplicate-free selection of the sources seen, the current one included
+            return ("estimate/ssrcs", "%d SSRCs seen, estimate lists %d (%d distinct), current source listed: %s" % (
+                len(ref.ssrcs), len(ssrcs), len(set(ssrcs)), ssrc in ssrcs), i)
         # "the latest measured incoming bitrate": the latest at any packet, or the one current at the latest estimate -
         # the bound is demanded against the larger of the two readings
         cands = [x for x in (ref.latest_R, ref.latest_upd) if x is not None]
@@ -200,6 +209,10 @@ def run(tier, seed):
             if send0 and not thorough and f not in REDUCED:
                 continue
             tasks.append((depth, send0, [f], NAMES))
+    # "any number of SSRCs": short sequences around a flood of 300 new SSRCs
+    small = ["steady-1200", "congest-1200", "ssrc-flood", "idle-1500"]
+    for f in small:
+        tasks.append((3, 0, [f], small))
     # one level deeper over the shapes that involve zero-size payloads, congestion, draining and idling
     for f in REDUCED:
         tasks.append((depth + 1 if not thorough else 6, 0, [f], REDUCED))
@@ -209,7 +222,7 @@ def run(tier, seed):
         rule="complete tree of phase sequences: depth %d over 14 phase shapes (50 packets each: steady 20 ms x sizes {1200,100,0}; "
              "bursts with 0 / 1 ms gaps; send-time lag growing 2 ms per packet x sizes {1200,100,0}; lag shrinking; 200 ms gaps x "
              "{1200,0}; idle 1500 / 5000 ms; a second SSRC) from send-clock origins {0, 63.5 s (24-bit abs-send-time wrap inside)}, "
-             "plus depth %d over the 8 shapes with zero sizes / congestion / idling; real RemoteBitrateEstimator deep-copied per "
+             "plus depth %d over the 8 shapes with zero sizes / congestion / idling, plus all sequences of length <= 3 over {steady, congesting, a flood of 300 packets from 300 new SSRCs, idle}; real RemoteBitrateEstimator deep-copied per "
              "node; after EVERY packet: no exception, measured incoming bitrate == reference over exactly the packets of the last "
              "1000 ms, estimate is a non-negative int that REMB encodes within 2^-17, SSRC list == SSRCs seen, estimate does not rise "
              "above 1.5 x latest measurement + 10000, and <= 85%% of it when the detector reports over-use. states = distinct "
